@@ -453,6 +453,47 @@ func c19RunCycle(u *uni.U, gen *wh.CPGen, name string, head []byte, headSize int
 	return len(srv.Requests()), err
 }
 
+// c19Outage: see c19FeedWorker. Returns the number of requests seen.
+func c19Outage(u *uni.U, name string) (int, error) {
+	origin := c19Origin(name)
+	la := wh.LogCfg{Origin: origin, Key: u.K1}
+	url := "http://log.test/"
+	if strings.HasPrefix(name, "rekor") {
+		url = "http://log.test/?treeID=1234567890"
+	}
+	if name == "sumdb" {
+		url = "http://log.test"
+	}
+	srv := stublog.New(name, u.Main)
+	srv.SetHead(6, u.Sign(uni.Body(origin, 6, u.Main.Root(6)), u.K1.Signer))
+	srv.Answer = func(i int, path string) string {
+		if i < 60 {
+			return "http-500"
+		}
+		return ""
+	}
+	cl, _ := config.NewLog(origin, u.K1.VKey, url)
+	e := wh.NewEnv(u, wh.Config{Store: "mem", Logs: []wh.LogCfg{la}})
+	defer e.Close()
+	e.Do(wh.Req{LogID: la.ID(), CP: u.Sign(uni.Body(origin, 2, u.Main.Root(2)), u.K1.Signer)})
+	ctx, cancel := context.WithCancel(context.Background())
+	defer cancel()
+	go func() {
+		// The context ends once the witness has caught up, or after 20 s.
+		for t0 := time.Now(); time.Since(t0) < 20*time.Second; time.Sleep(5 * time.Millisecond) {
+			if text, _, ok := uni.SplitNote(e.Stored(la.ID())); ok && text == uni.Body(origin, 6, u.Main.Root(6)) && len(srv.Requests()) > 60 {
+				break
+			}
+		}
+		cancel()
+	}()
+	err := c19Feeders[name](ctx, cl, omniwitness.VerifWitnessAdapter(e.W), &http.Client{Transport: srv}, 2*time.Millisecond)
+	if err != nil && ctx.Err() != nil {
+		err = nil // returning the context's error when it ended is the normal end of a polling feeder
+	}
+	return len(srv.Requests()), err
+}
+
 // c19Origin: the SumDB client only understands the Go checksum database's
 // fixed first line.
 func c19Origin(name string) string {
@@ -558,6 +599,14 @@ func c19FeedWorker(args []string) int {
 			}
 			guard("answersL:"+strings.ReplaceAll(fmt.Sprint(c19Prefix(c)), " ", ","), f)
 		})
+	}
+	// An outage that ends: the feeder in POLLING mode (interval 2 ms) against a
+	// log that answers 500 to its first 60 requests and is healthy afterwards -
+	// whatever the polling loop keeps per failed cycle (a counter, a period, a
+	// slot) adds up; it must neither panic nor exit, and it returns when its
+	// context ends.
+	if name != "distributor" && !skip["outage"] {
+		guard("outage", func() (int, error) { return c19Outage(u, name) })
 	}
 	// Hostile log-signed checkpoints.
 	if name != "distributor" {
@@ -727,7 +776,7 @@ func c19(tier string) int {
 	run.Set("feeder_cycles", n2)
 	run.Set("evaluations", n1+n2)
 	run.Set("exhaustive", true)
-	run.Set("rule", "endpoint: the complete 1-edit neighbourhood (every prefix, deletion, bit flip, 14 insert tokens at every position) of a valid request of 11 verdict classes, all token strings up to 4 (quick) / 5 (thorough) tokens over 13 tokens, and size-boundary bodies (16383/16384/16385 bytes, 5000-byte proof line, 3000 proof lines, a proof line longer than the reader's buffer), each sent to the real handler behind the 16 KiB cap in front of the real witness in two states, and through parseBody and Proof.Unmarshal: no panic, exactly one response, status in {200,400,403,404,409,422,429,500}. Feeders (sumdb, tiles, pixel, rekor, serverless) and distributor: one cycle in a worker subprocess for every placement of up to 1 (quick) / 2 (thorough) deviating answers from a 27-item menu (empty, truncated at several places, oversized, non-UTF-8, wrong content, seven type-confused / degenerate JSON shapes, one byte, 31 bytes, serverless tile header only / huge leaf count, last byte dropped / extra byte, zeros, 204, 302 without Location, 404, 500, reset) at every request position; for sumdb, tiles and serverless additionally every placement of up to 2 answers from a 12-item menu (failures and short / empty / wrong-length bodies) in a step 280 -> 300 of a 300-leaf tree (partial tiles up to 44 wide), in both tiers; and for log-signed checkpoints with size in {0,1,2^62-1,2^62,2^62+1,2^63-1,2^63,2^64-1} x root hash length {0,5,31,32,33} x witness {empty, size 1}: must end with a result or an error (no panic, no process exit, no stall: 20 s without progress, confirmed 3 times). distinct_nontrivial = distinct feeder cases")
+	run.Set("rule", "endpoint: the complete 1-edit neighbourhood (every prefix, deletion, bit flip, 14 insert tokens at every position) of a valid request of 11 verdict classes, all token strings up to 4 (quick) / 5 (thorough) tokens over 13 tokens, and size-boundary bodies (16383/16384/16385 bytes, 5000-byte proof line, 3000 proof lines, a proof line longer than the reader's buffer), each sent to the real handler behind the 16 KiB cap in front of the real witness in two states, and through parseBody and Proof.Unmarshal: no panic, exactly one response, status in {200,400,403,404,409,422,429,500}. Feeders (sumdb, tiles, pixel, rekor, serverless) and distributor: one cycle in a worker subprocess for every placement of up to 1 (quick) / 2 (thorough) deviating answers from a 27-item menu (empty, truncated at several places, oversized, non-UTF-8, wrong content, seven type-confused / degenerate JSON shapes, one byte, 31 bytes, serverless tile header only / huge leaf count, last byte dropped / extra byte, zeros, 204, 302 without Location, 404, 500, reset) at every request position; for sumdb, tiles and serverless additionally every placement of up to 2 answers from a 12-item menu (failures and short / empty / wrong-length bodies) in a step 280 -> 300 of a 300-leaf tree (partial tiles up to 44 wide), in both tiers; and for log-signed checkpoints with size in {0,1,2^62-1,2^62,2^62+1,2^63-1,2^63,2^64-1} x root hash length {0,5,31,32,33} x witness {empty, size 1}: plus, per feeder, one polling run (interval 2 ms) through an outage of 60 failed requests that ends; must end with a result or an error (no panic, no process exit, no stall: 20 s without progress, confirmed 3 times). distinct_nontrivial = distinct feeder cases")
 	run.Assumption("a retry loop that keeps retrying until its context ends is by design: cycles run with a context that ends at the first back-off wait")
 	run.Assumption("not all byte strings up to 16 KiB: the stated neighbourhoods and menus, completely (coverage-guided fuzzing would be a different technique family)")
 	return run.Finish()
